@@ -3,7 +3,7 @@ and then replaced by their verified outcome classes when a caller is analysed,
 plus the canned entry states for the functions of the start path."""
 from .facts import AnalysisBroken
 from .absint import State, atom_interval
-from .models import ev, fs, new_mem, targets
+from .models import ev, fs, new_mem, targets, failed
 from .rulelib import new_interp, all_neg, show, ret_site
 
 
@@ -11,7 +11,7 @@ from .rulelib import new_interp, all_neg, show, ret_site
 
 def o_process_fork(I, fn, n, args, st):
     ev(I, "process_fork", fn, n, args, st)
-    fail = (st, I.neg())
+    fail = (failed(st, fn, n), I.neg())
     child = st.copy()
     child.mon["proc"] = "child"
     child.mon["sigmask"] = fs(("sym", "EMPTY"))
@@ -19,7 +19,7 @@ def o_process_fork(I, fn, n, args, st):
     ok = st.copy()
     ok.mon["proc"] = "parent"
     ok.res[pid] = ("running",)
-    bad = st.copy()
+    bad = failed(st, fn, n).copy()
     bad.mon["proc"] = "parent"
     bad.res[pid] = ("reaped",)
     return [fail, (child, fs(0)), (ok, fs(pid)), (bad, I.neg())]
@@ -73,7 +73,7 @@ def verify_fork_summary(ctx, prog, rule):
 def o_strv_concat(I, fn, n, args, st):
     s, t = new_mem(I, fn, n, st)
     ev(I, "alloc", fn, n, t, s)
-    return [(st, fs("NULL")), (s, fs(t))]
+    return [(failed(st, fn, n), fs("NULL")), (s, fs(t))]
 
 
 def o_strv_free(I, fn, n, args, st):
@@ -86,7 +86,7 @@ def o_path_prepend_cwd(I, fn, n, args, st):
     ev(I, "getcwd", fn, n, args, st)
     s, t = new_mem(I, fn, n, st)
     ev(I, "alloc", fn, n, t, s)
-    return [(st, fs("NULL")), (s, fs(t))]
+    return [(failed(st, fn, n), fs("NULL")), (s, fs(t))]
 
 
 def o_bool(I, fn, n, args, st):
@@ -142,7 +142,7 @@ def o_process_start(I, fn, n, args, st):
     """outcome classes of process_start (verified by verify_start_summary):
     <0 with *process untouched and no child left; 0 in the forked child; 1 with *process = pid of a running child"""
     ev(I, "process_start", fn, n, args, st)
-    fail = (st, I.neg())
+    fail = (failed(st, fn, n), I.neg())
     child = st.copy()
     child.mon["proc"] = "child"
     child.mon["sigmask"] = fs(("sym", "EMPTY"))
@@ -178,11 +178,13 @@ def o_parse_options(I, fn, n, args, st):
     input data implies a piped stdin, a size implies data.  failure: negative, nothing else changed (the options
     object is reproc_start's private copy).  Verified against the code by C13 (verify_parse_summary)."""
     ev(I, "parse_options", fn, n, args, st)
+    st0 = st
+    st = st
     P = I.prog
     T = lambda name: I.abs_int(P.const(name))
     common = [T("REPROC_REDIRECT_PIPE"), T("REPROC_REDIRECT_PARENT"), T("REPROC_REDIRECT_DISCARD"),
               T("REPROC_REDIRECT_HANDLE"), T("REPROC_REDIRECT_FILE"), T("REPROC_REDIRECT_PATH")]
-    outs = [(st, I.neg())]
+    outs = [(failed(st, fn, n), I.neg())]
     for t in targets(I, args[0]):
         red = ("f", t, "redirect")
         for data in ("null", "set"):
